@@ -21,7 +21,8 @@ const c07Yang = `module m { namespace "urn:m"; prefix m; revision 2020-01-01;
 		container c { leaf w { type string; } }
 		container st { config false; leaf cnt { type int32; } }
 	}
-	list l { key "k"; leaf k { type int32; } leaf v { type string; } }
+	list l { key "k"; leaf k { type int32; } leaf v { type string; }
+		list in { key "p"; leaf p { type int32; } leaf iv { type string; } } }
 	leaf top { type int32; }
 }`
 
@@ -60,8 +61,18 @@ func c07Source(st *memStore, nrows int) {
 		row := l.addRow(st, val.Int32(int32(i*10)))
 		row.leaves["k"] = val.Int32(int32(i * 10))
 		row.leaves["v"] = val.String(vpStringN(1))
+		if nestedRows > 0 {
+			in := row.ensureList(st, "in")
+			for j := 0; j < nestedRows; j++ {
+				e := in.addRow(st, val.Int32(int32(j)))
+				e.leaves["p"] = val.Int32(int32(j))
+				e.leaves["iv"] = val.String("i")
+			}
+		}
 	}
 }
+
+var nestedRows = 0
 
 // projection predicate: level is 1 for direct children of the target
 type c07Pred struct {
@@ -213,6 +224,17 @@ func predFields(paths [][]string, exclude bool) c07Pred {
 	return pr
 }
 
+func predRangeNested(start, end int) c07Pred {
+	p := c07All()
+	p.row = func(path []string, i int, n int) bool {
+		if len(path) == 2 && path[0] == "l" && path[1] == "in" {
+			return i >= start && (end < 0 || i < end)
+		}
+		return true
+	}
+	return p
+}
+
 func predRange(start, end int) c07Pred {
 	p := c07All()
 	p.row = func(path []string, i int, n int) bool {
@@ -319,13 +341,66 @@ func H_C07_range(s any) {
 	vpCover("reached")
 }
 
+// a window on a list nested in another list leaves the enclosing list alone
+//vp:setup S_c07
+func H_C07_range_nested(s any) {
+	m := s.(*meta.Module)
+	src := newMemStore()
+	nestedRows = 3
+	c07Source(src, 3)
+	nestedRows = 0
+	start := vpChoose(3)
+	endOpt := vpChoose(3)
+	q := "fc.range=l/in!" + strconv.Itoa(start) + "-"
+	end := -1
+	if endOpt > 0 {
+		end = start + endOpt
+		q += strconv.Itoa(end)
+	}
+	c07Check(m, src, q, predRangeNested(start, end), "")
+	vpCover("reached")
+}
+
+// two selections derived from one constrained base do not disturb each other
+//vp:setup S_c07
+func H_C07_derived_selections(s any) {
+	m := s.(*meta.Module)
+	src := newMemStore()
+	c07Source(src, 1)
+	b := NewBrowser(m, src.node())
+	bases := []string{"", "?fields=a%3Btop", "?depth=4", "?fields=a&depth=4"}
+	bi := vpChoose(len(bases))
+	base, err := b.Root().Find(bases[bi])
+	vpAssert(err == nil && base != nil, "base selection")
+	basePred := []c07Pred{c07All(), predFields([][]string{sp("a"), sp("top")}, false), predDepth(4), c07And(predFields([][]string{sp("a")}, false), predDepth(4))}[bi]
+	s1, err1 := base.Find("?with-defaults=trim")
+	s2, err2 := base.Find("?content=nonconfig")
+	vpAssert(err1 == nil && err2 == nil && s1 != nil && s2 != nil, "derived selections")
+	for i, d := range []struct {
+		sel  *Selection
+		pred c07Pred
+	}{{s1, c07And(basePred, predTrim())}, {s2, c07And(basePred, predContent(false))}, {base, basePred}} {
+		out := newMemStore()
+		out.quiet = true
+		vpAssert(d.sel.UpsertInto(out.node()) == nil, "read succeeds")
+		want := newMemStore()
+		refProject(want, m, src.root, want.root, nil, 1, d.pred)
+		vpAssert(treeEq(out.root, want.root), "selection "+strconv.Itoa(i)+" answers with its own parameters, not a sibling's")
+	}
+	vpCover("reached")
+}
+
 // combinations are intersections
 //vp:setup S_c07
 func H_C07_combine(s any) {
 	m := s.(*meta.Module)
 	src := newMemStore()
 	c07Source(src, 2)
-	switch vpChoose(4) {
+	switch vpChoose(6) {
+	case 4:
+		c07Check(m, src, "fields=a&fc.xfields=a/b", c07And(predFields([][]string{sp("a")}, false), predFields([][]string{sp("a/b")}, true)), "")
+	case 5:
+		c07Check(m, src, "fc.xfields=a/c&depth=3&with-defaults=trim", c07And(c07And(predFields([][]string{sp("a/c")}, true), predDepth(3)), predTrim()), "")
 	case 0:
 		c07Check(m, src, "depth=2&content=config", c07And(predDepth(2), predContent(true)), "")
 	case 1:
